@@ -11,6 +11,7 @@ import (
 	"io"
 	"reflect"
 	"slices"
+	"sync/atomic"
 
 	"github.com/c2FmZQ/ech"
 
@@ -346,8 +347,18 @@ func OpenSession(first []byte, keys []ech.Key) (s *Session, err error, panicked 
 	return OpenSessionSplit(first, keys, -1)
 }
 
+// OpenSessionDebug is OpenSession with the WithDebug mode chosen by the caller (0: a sink that formats, 1: WithDebug(nil) after the
+// keys, 2: WithDebug(nil) before them); the other constructors derive the mode from the length of the first flight.
+func OpenSessionDebug(first []byte, keys []ech.Key, mode int) (s *Session, err error, panicked any) {
+	return openSession(first, keys, -1, mode%3)
+}
+
 // OpenSessionSplit passes the keys through two WithKeys options, keys[:split] and keys[split:] (split < 0: one option).
 func OpenSessionSplit(first []byte, keys []ech.Key, split int) (s *Session, err error, panicked any) {
+	return openSession(first, keys, split, len(first)%3)
+}
+
+func openSession(first []byte, keys []ech.Key, split, debugMode int) (s *Session, err error, panicked any) {
 	t := memnet.New()
 	t.Feed(first)
 	s = &Session{T: t}
@@ -371,15 +382,22 @@ func OpenSessionSplit(first []byte, keys []ech.Key, split int) (s *Session, err 
 	}
 	// every other session also passes WithDebug(nil) (an option a caller may well pass through from its own configuration),
 	// before or after the keys: it must behave exactly like no WithDebug at all
-	switch len(first) % 3 {
+	switch debugMode {
 	case 1:
 		opts = append(opts, ech.WithDebug(nil))
 	case 2:
 		opts = append([]ech.Option{ech.WithDebug(nil)}, opts...)
+	case 0:
+		// ... and a third of the sessions log for real: a sink that formats what it is given (a debug sink is an observer:
+		// whatever it prints must leave the hellos as they are)
+		opts = append(opts, ech.WithDebug(func(format string, args ...any) { DebugSink.Add(int64(len(fmt.Sprintf(format, args...)))) }))
 	}
 	s.C, err = ech.NewConn(context.Background(), t, opts...)
 	return s, err, nil
 }
+
+// DebugSink counts the bytes formatted by the debug sink of the sessions that log (nothing reads it; it keeps the formatting alive).
+var DebugSink atomic.Int64
 
 // HarnessBytes is the memory the session driver itself holds (read buffer).
 func (s *Session) HarnessBytes() int { return cap(s.buf) }
